@@ -12,10 +12,10 @@ def c09(tier):
     """Message structures against their CDDL: arity sweep at the top, every CBOR kind in every
     slot, one nested structure (quick) / two (thorough), headers kept shallow (C08 explores them)."""
     if tier == "quick":
-        pol = dict(max_array=6, max_nested_array=4, max_map=1, max_text=1, max_depth=4,
+        pol = dict(max_array=6, max_nested_array=4, max_map=1, max_text=1, max_depth=6,
                    max_total_entries=1, max_total_items=10)
     else:
-        pol = dict(max_array=7, max_nested_array=4, max_map=2, max_text=2, max_depth=5,
+        pol = dict(max_array=7, max_nested_array=4, max_map=2, max_text=2, max_depth=7,
                    max_total_entries=2, max_total_items=14)
     return [("jobs_decode", "decode_job", dict(prop="C09", tname=t, policy=pol)) for t in STRUCTS]
 
@@ -28,8 +28,8 @@ def c08(tier):
     """Header maps: standalone with two (three) entries so that every rule interaction and order is
     reached; as unprotected header and inside a protected bstr of a carrier with shallower maps."""
     if tier == "quick":
-        hdr = dict(max_array=3, max_map=2, max_text=2, max_depth=3, max_total_entries=2, max_total_items=5)
-        car = dict(max_array=3, max_nested_array=3, max_map=1, max_text=2, max_depth=4, max_total_entries=1,
+        hdr = dict(max_array=3, max_map=2, max_text=2, max_depth=5, max_total_entries=2, max_total_items=5)
+        car = dict(max_array=3, max_nested_array=3, max_map=1, max_text=2, max_depth=6, max_total_entries=1,
                    max_total_items=6)
     else:
         hdr = dict(max_array=3, max_map=3, max_text=3, max_depth=4, max_total_entries=3, max_total_items=8)
@@ -56,8 +56,9 @@ def c12_decode(tier):
     if tier == "quick":
         m2 = dict(max_array=2, max_map=2, max_text=1, max_depth=3, max_total_entries=2, max_total_items=2)
         m3 = dict(max_array=1, max_map=3, max_text=1, max_depth=2, max_total_entries=3, max_total_items=1)
-        nest = dict(max_array=4, max_nested_array=3, max_map=2, max_text=1, max_depth=5, max_total_entries=2,
-                    max_total_items=7)
+        nest = dict(max_array=4, max_nested_array=3, max_map=2, max_text=1, max_depth=6, max_total_entries=2,
+                    max_total_items=7, root_kinds=["Array"], root_lens=[3, 4],
+                    map_value_kinds=["Null", "Integer", "Bytes", "Array"])
     else:
         m2 = dict(max_array=3, max_map=3, max_text=2, max_depth=3, max_total_entries=3, max_total_items=3)
         m3 = dict(max_array=2, max_map=4, max_text=1, max_depth=3, max_total_entries=4, max_total_items=2)
@@ -106,9 +107,9 @@ def _sj(prop, tname, pol, built=False):
 
 def _struct_pol(tier, top):
     if tier == "quick":
-        return dict(max_array=top, max_nested_array=3, max_map=1, max_text=1, max_depth=4, max_total_entries=1,
+        return dict(max_array=top, max_nested_array=3, max_map=1, max_text=1, max_depth=6, max_total_entries=1,
                     max_total_items=top + 4)
-    return dict(max_array=top, max_nested_array=4, max_map=2, max_text=1, max_depth=5, max_total_entries=2,
+    return dict(max_array=top, max_nested_array=4, max_map=2, max_text=1, max_depth=7, max_total_entries=2,
                 max_total_items=top + 8)
 
 
@@ -145,11 +146,17 @@ def c06(tier):
 ALL_TYPES = STRUCTS + ["Header", "CoseKey", "CoseKeySet", "ClaimsSet", "PartyInfo", "SuppPubInfo", "CoseKdfContext"]
 
 
-def _rt_pol(tier, t):
+MAPS = ("Header", "CoseKey", "ClaimsSet")
+
+
+def _rt_pol(tier, t, entries=None):
     top = {"CoseMac": 5, "CoseKdfContext": 5, "CoseKeySet": 2}.get(t, 4)
     if tier == "quick":
-        return dict(max_array=top, max_nested_array=3, max_map=2, max_text=1, max_depth=4, max_total_entries=2,
-                    max_total_items={"CoseKdfContext": 13}.get(t, top + 4))
+        # two entries only where the type itself is a map (order / duplicate interactions live
+        # there); carriers get one entry in total
+        e = entries if entries is not None else (2 if t in MAPS else 1)
+        return dict(max_array=top, max_nested_array=3, max_map=e, max_text=1, max_depth=6, max_total_entries=e,
+                    max_total_items={"CoseKdfContext": 13, "CoseKeySet": 3}.get(t, top + 4))
     return dict(max_array=top, max_nested_array=4, max_map=3, max_text=2, max_depth=5, max_total_entries=3,
                 max_total_items={"CoseKdfContext": 14}.get(t, top + 8))
 
@@ -165,18 +172,23 @@ def c07(tier):
 def c02(tier):
     """Retention on decode is part of every decode-vs-reference comparison; here: re-encoding and
     the structure helpers use exactly the retained bytes, at every nesting position."""
-    jobs = [_rj("C02", t, tier) for t in STRUCTS + ["SuppPubInfo", "CoseKdfContext"]]
-    for t, top in (("CoseSign1", 4), ("CoseSign", 4), ("CoseMac0", 4), ("CoseEncrypt0", 3), ("CoseRecipient", 4)):
+    jobs = [_rj("C02", t, tier) for t in STRUCTS + ["SuppPubInfo"] + (["CoseKdfContext"] if tier != "quick" else [])]
+    for t, top in (("CoseSign1", 4), ("CoseSign", 4), ("CoseMac0", 4), ("CoseEncrypt0", 3)) + \
+            ((("CoseRecipient", 4), ("CoseMac", 5), ("CoseEncrypt", 4)) if tier != "quick" else ()):
         jobs.append(_sj("C02", t, _struct_pol(tier, top), False))
     jobs.append(_dj("C02", "CoseSign", _struct_pol(tier, 4), tag=":retention"))
-    jobs.append(_dj("C02", "CoseEncrypt", _struct_pol(tier, 4), tag=":retention"))
+    jobs.append(_dj("C02", "SuppPubInfo", _struct_pol(tier, 3), tag=":retention"))
     return jobs
 
 
 def c11(tier):
     n = 1 if tier == "quick" else 2
-    jobs = [_rj("C11", t, tier, built=True) for t in ALL_TYPES]
-    jobs += [("jobs_encode", "encode_job", dict(prop="C11", tname=t, n_extra=n)) for t in ("Header", "CoseKey", "ClaimsSet")]
+    # (COSE_KDF_Context has private fields: its builder-made twin cannot be rebuilt natively, so it is
+    # covered as decoded, through C07)
+    jobs = [_rj("C11", t, tier, built=True) for t in ALL_TYPES if t != "CoseKdfContext"]
+    jobs.append(_rj("C11", "CoseKdfContext", tier, built=False))
+    jobs += [("jobs_encode", "encode_job", dict(prop="C11", tname=t, n_extra=n, dups_in_scope=False))
+             for t in ("Header", "CoseKey", "ClaimsSet")]
     return jobs
 
 
@@ -190,9 +202,13 @@ def c12(tier):   # noqa: F811  (decode side defined above is extended with the e
 def c13(tier):
     pol = _rt_pol(tier, "x")
     pol = dict(pol, max_total_entries=1)
-    return [("jobs_misc", "api_job", dict(prop="C13", tname=t, policy=dict(pol, max_array={"CoseMac": 5, "CoseKdfContext": 5}.get(t, 4),
-                                                                           max_total_items={"CoseKdfContext": 13}.get(t, 9))))
-            for t in ALL_TYPES]
+    jobs = []
+    for t in ALL_TYPES + ["ProtectedHeader", "Label"]:
+        p = dict(pol, max_array={"CoseMac": 5, "CoseKdfContext": 5}.get(t, 4), max_total_items={"CoseKdfContext": 13}.get(t, 9))
+        if t == "CoseKdfContext":
+            p.update(max_map=0, max_total_entries=0)
+        jobs.append(("jobs_misc", "api_job", dict(prop="C13", tname=t, policy=p)))
+    return jobs
 
 
 def c14(tier):
@@ -212,3 +228,29 @@ def c16(tier):
 
 def c20(tier):
     return [("jobs_misc", "canonicalize_job", dict(prop="C20", n_params=2 if tier == "quick" else 3))]
+
+
+def c01(tier):
+    """Totality: no decoding entry point and no follow-up operation on a decoded value panics
+    (only findings of class panic / depth / nesting / crash are reported under C01), plus the
+    nesting spine."""
+    jobs = []
+    for t in ALL_TYPES + ["ProtectedHeader", "Label"]:
+        top = {"CoseMac": 5, "CoseKdfContext": 5, "CoseKeySet": 2}.get(t, 4)
+        if tier == "quick":
+            p = dict(max_array=top + 1, max_nested_array=3, max_map=1, max_text=1, max_depth=6, max_total_entries=1,
+                     max_total_items={"CoseKdfContext": 13, "CoseKeySet": 3}.get(t, top + 4))
+            if t == "CoseKdfContext":
+                p.update(max_map=0, max_total_entries=0, max_array=5)
+        else:
+            p = dict(max_array=top + 2, max_nested_array=4, max_map=2, max_text=2, max_depth=7, max_total_entries=2,
+                     max_total_items={"CoseKdfContext": 15}.get(t, top + 8))
+        jobs.append(("jobs_misc", "api_job", dict(prop="C01", tname=t, policy=p)))
+        if tier != "quick" and t not in ("ProtectedHeader", "Label"):
+            jobs.append(("jobs_encode", "roundtrip_job", dict(prop="C01", tname=t, policy=p)))
+    for t, top in (("CoseSign1", 4), ("CoseSign", 4), ("CoseMac0", 4), ("CoseMac", 5), ("CoseEncrypt0", 3),
+                   ("CoseEncrypt", 4), ("CoseRecipient", 4)):
+        jobs.append(_sj("C01", t, _struct_pol(tier, top), False))
+    lv = [1, 2, 4, 8, 16, 32] if tier == "quick" else [1, 2, 4, 8, 16, 32, 64, 128]
+    jobs.append(("jobs_misc", "depth_job", dict(prop="C01", levels=lv, native_levels=2000)))
+    return jobs
